@@ -114,3 +114,57 @@ func MapRead[K comparable, V any](m map[K]V) map[K]V  { memAccess(m, false); ret
 
 // MapW marks a write access to the map and returns it (used as `vs.MapW(m)[k] = v`).
 func MapW[K comparable, V any](m map[K]V) map[K]V { memAccess(m, true); return m }
+
+// RQ / WQ: quiet access to a package-level variable: checked against the happens-before relation
+// like R / W but NOT a scheduling point (the synchronisation clocks only change at visible
+// operations, so the verdict does not depend on where between them the access is placed).
+// Only the last read of each thread is kept (its clock dominates the earlier ones).
+func memQuiet(p interface{}, write bool) {
+	if !RaceMode || Cur == nil {
+		return
+	}
+	s := Cur
+	t := s.me()
+	lbl := "gmem:" + s.valLabel(p)
+	sc := s.syncClockOf(t)
+	st := ""
+	hist := s.memHist[lbl]
+	for _, l := range hist {
+		if l.thr != t && (l.write || write) && !leq(l.clk, sc) {
+			if st == "" {
+				st = site()
+			}
+			a, b := l.site+rw(l.write), st+rw(write)
+			if a > b {
+				a, b = b, a
+			}
+			k := a + " <-> " + b
+			if Races[k] == 0 {
+				RaceInfo[k] = s.ReplayChoices()
+			}
+			Races[k]++
+		}
+	}
+	// the access lies between this thread's last visible operation and its next one: it is ordered
+	// before what the NEXT operation is ordered before, hence own component + 1 in the stored clock
+	stored := append([]int{}, sc...)
+	ti := s.tidx[t]
+	for len(stored) <= ti {
+		stored = append(stored, 0)
+	}
+	stored[ti]++
+	if write {
+		s.memHist[lbl] = []memLast{{t, stored, true, site()}}
+		return
+	}
+	for i := range hist {
+		if hist[i].thr == t && !hist[i].write {
+			hist[i].clk = stored
+			return
+		}
+	}
+	s.memHist[lbl] = append(hist, memLast{t, stored, false, site()})
+}
+
+func RQ(p interface{}) { memQuiet(p, false) }
+func WQ(p interface{}) { memQuiet(p, true) }
